@@ -239,6 +239,9 @@ inductive Outcome where
   | write (cpus : List Int)
 deriving Repr, DecidableEq
 
+/-- applyBESuppressCPUSet / applyCPUSetWithNonePolicy: an empty set is skipped, anything else is written. -/
+def applyResult (out : List Int) : Outcome := if out.isEmpty then .untouched else .write out
+
 def adjustCPUSet (f : FloatOps) (budgetMilli : Int) (oldN : Nat) (procs : List Proc) (pods : List PodC)
     (reserved sysExcl : List Int) : Outcome :=
   let lsr := lsrPool pods reserved sysExcl procs
@@ -250,7 +253,7 @@ def adjustCPUSet (f : FloatOps) (budgetMilli : Int) (oldN : Nat) (procs : List P
   | some lsrNum =>
     let a := if lsrNum > 0 then policy lsrNum lsr else []
     let b := if cpus - lsrNum > 0 then policy (cpus - lsrNum) ls else []
-    if (a ++ b).isEmpty then .untouched else .write (a ++ b)
+    applyResult (a ++ b)
 
 /-! ### 4. adjustByCfsQuota -/
 
